@@ -45,6 +45,7 @@ type Param struct {
 	Max  string   `json:"max,omitempty"`
 	Step string   `json:"step,omitempty"`
 	List []string `json:"list,omitempty"`
+	Dist int32    `json:"dist,omitempty"` // FeasibleSpace.distribution: 0 unspecified 1 uniform 2 logUniform 3 normal 4 logNormal (the Go service ignores it)
 }
 
 type Setting struct {
@@ -385,6 +386,10 @@ func (c18) Gen(r *rand.Rand, i, n int) any {
 	}
 	for j := 0; j < np; j++ {
 		in.Params = append(in.Params, genParam(r, j, flavour, malformed && r.Intn(3) == 0))
+		if r.Intn(3) == 0 {
+			// a distribution as other suggestion services honour it; the ranges here often include 0 and negative numbers
+			in.Params[j].Dist = int32(1 + r.Intn(4))
+		}
 	}
 	if malformed && r.Intn(8) == 0 && np > 1 {
 		in.Params[np-1].Name = in.Params[0].Name
@@ -626,7 +631,7 @@ func (c18) Run(input any) kit.Case {
 		t, ct := ptypeOf(p.Type)
 		specs = append(specs, &api.ParameterSpec{Name: p.Name, ParameterType: t,
 			// a copy of the list: in.Params is read again after the calls (feeding trials back, printing replies) and is the replayable input
-			FeasibleSpace: &api.FeasibleSpace{Min: p.Min, Max: p.Max, Step: p.Step, List: append([]string(nil), p.List...)}})
+			FeasibleSpace: &api.FeasibleSpace{Min: p.Min, Max: p.Max, Step: p.Step, List: append([]string(nil), p.List...), Distribution: api.Distribution(p.Dist)}})
 		// the strconv readings are given only where toGoptunaSearchSpace takes them (Atoi for int, ParseFloat for double)
 		ai, af := [3]string{"None", "None", "None"}, [3]string{"None", "None", "None"}
 		if p.Type == "int" {
